@@ -835,7 +835,37 @@ def full_api_replays(rep, seed, n=60):
     def p_special(x, z):
         return algopy.special.erf(z) * algopy.sqrt(x[:2] * x[:2] + 1.) + algopy.log1p(z * z) - algopy.tan(x[2:] * 0.3)
 
-    progs = [p_pow_traced, p_buffer, p_fft_axis, p_views, p_linalg, p_consts, p_sum_axes, p_special]
+    def p_reflected(x, z):
+        a = numpy.array([1., 2.])
+        return (a * z) + (a - z) * (a / (z + 1.)) + (3.0 - x[:2]) + 2.0 / (x[2:] + 1.) + (a + z) - 1.5 * z
+
+    def p_const_left_linalg(x, z):
+        A = algopy.reshape(x, (2, 2))
+        return algopy.dot(W, A)[0] + algopy.dot(A, W)[:, 1] + algopy.dot(W[0], A) + algopy.outer(W[0], z)[1] + algopy.outer(z, W[1])[:, 0]
+
+    def p_shape_props(x, z):
+        A = algopy.reshape(x, (2, 2))
+        n = A.shape[0] * A.ndim + A.size          # plain integers taken from tracer nodes
+        return algopy.sum(A.T * A, axis=0) * float(n) + z * len(z.x if hasattr(z, "x") else z)
+
+    def p_zeros_ones_like(x, z):
+        b = algopy.zeros_like(z); o = algopy.ones_like(z)
+        b[0] = z[1] * x[0]; b[1] = b[0] + o[1]
+        return b * o + algopy.zeros((2,), dtype=x) + algopy.ones(2, dtype=z)
+
+    def p_factorizations(x, z):
+        A = algopy.reshape(x, (2, 2)) + W
+        Q, R = algopy.qr(A)
+        L = algopy.cholesky(algopy.dot(A, A.T) + 3.0 * numpy.eye(2))
+        l, V = algopy.eigh(A + A.T)
+        return algopy.dot(R, z) + algopy.diag(L) * l + algopy.dot(Q.T, z)
+
+    def p_det_family(x, z):
+        A = algopy.reshape(x, (2, 2)) + W
+        return z * algopy.det(A) + algopy.logdet(A) + algopy.trace(A) * algopy.prod(z) + algopy.expm(A * 0.1)[0]
+
+    progs = [p_pow_traced, p_buffer, p_fft_axis, p_views, p_linalg, p_consts, p_sum_axes, p_special,
+             p_reflected, p_const_left_linalg, p_shape_props, p_zeros_ones_like, p_factorizations, p_det_family]
     for it in range(n):
         f = progs[it % len(progs)]
         order = rnd.choice(["xz", "zx"])           # the order in which the independents are LISTED
